@@ -120,12 +120,12 @@ def run(ctx):
     ctx.note(f"TLC MCRSync: {r.generated // 2} (source, prior target, delete, cwd) cases: target = source, limitations exact, minimal; {r.wall:.1f}s")
     # the protocol message by message (structure broadcast, serve loop, 2 targets that may fail at any point) and its three mutants
     pr = tlc.run("MCRSyncProto", "RP.cfg", scratch=ctx.scratch, timeout=900)
-    pc = tlc.run("MCRSyncProto", "RP_crash.cfg" if ctx.quick else "RP_crash_big.cfg", scratch=ctx.scratch, timeout=3000)
+    pc = tlc.run("MCRSyncProto", "RP_crash_small.cfg" if ctx.quick else "RP_crash.cfg", scratch=ctx.scratch, timeout=3000)
     for x, nm in ((pr, "RP"), (pc, "RP_crash")):
         if not x.ok:
             ctx.machinery(f"TLC MCRSyncProto/{nm}: {x.violated} {x.error[:600]}")
     ctx.note(f"TLC RSyncProto: {pr.distinct} + {pc.distinct} states (with failing targets): pairing, complete at return, callback once, inside the sender language, send() ends")
-    for cfg in ("RP_linksonce", "RP_serveone", "RP_pairlast"):
+    for cfg in ("RP_linksonce", "RP_serveone", "RP_pairlast", "RP_cache"):
         m = tlc.run("MCRSyncProto", cfg + ".cfg", scratch=ctx.scratch, timeout=600, parse_trace=False)
         if not m.violated or m.violated == "error":
             ctx.machinery(f"TLC mutant {cfg} not killed")
